@@ -314,3 +314,33 @@ MUTANTS["C15"] += [
      "                getattr(connected_pair.local, \"ifname\", None),\n                to_interface_changes(connected_pair.local),",
      "                getattr(connected_pair.local, \"ifname\", None) and getattr(connected_pair.connected, \"ifname\", None),\n                to_interface_changes(connected_pair.local),"),
 ]
+
+# ---- round 10 sub-checks ----------------------------------------------------------------------------------
+MUTANTS["C02"] += [
+    ("acl-text-remembered-by-the-generator-object", "annet/generators/partial.py",
+     "        acl_func = self._get_vendor_func(device.hw.vendor, \"acl\")\n        if acl_func:\n            return acl_func(device)\n",
+     "        acl_func = self._get_vendor_func(device.hw.vendor, \"acl\")\n        if acl_func:\n            if \"_acl_memo\" not in self.__dict__:\n                self._acl_memo = acl_func(device)\n            return self._acl_memo\n"),
+]
+MUTANTS["C09"] += [
+    ("comment-starts-after-any-blank", "annet/rulebook/__init__.py", 'text = re.sub(r"(?:^|\\n)\\s*#.*", "", text)', 'text = re.sub(r"(?:^|\\n|[ \\t])\\s*#.*", "", text)'),
+]
+MUTANTS["C08"] += [
+    ("pins-only-for-commands-spelled-negated", "annet/annlib/patching.py",
+     '            elif rule["attrs"]["order_reverse"] and not cmd_direct and direct_matched:',
+     '            elif rule["attrs"]["order_reverse"] and not cmd_direct and direct_matched and row.startswith(registry_connector.get()[self.vendor].reverse + " "):'),
+]
+MUTANTS["C10"] += [
+    ("generator-text-split-at-every-line-boundary-character", "annet/generators/base.py",
+     "    if \"\\n\" in text:\n        rows = textwrap.dedent(text).strip().split(\"\\n\")\n    else:\n        rows = [text]",
+     "    rows = textwrap.dedent(text).strip().splitlines() or [text]"),
+]
+MUTANTS["C15"] += [
+    ("indirect-peers-deduplicated-by-short-name", "annet/mesh/registry.py",
+     "        for other_device in devices:\n            other_device_norm = self._normalize_host(other_device)\n            for rule in self.indirect_rules:",
+     "        seen_ = set()\n        for other_device in devices:\n            other_device_norm = self._normalize_host(other_device)\n            if other_device_norm in seen_:\n                continue\n            seen_.add(other_device_norm)\n            for rule in self.indirect_rules:"),
+]
+MUTANTS["C20"] += [
+    ("ordering-rule-remembers-the-last-row-it-matched", "annet/annlib/patching.py",
+     "            direct_matched = bool(rule[\"attrs\"][\"direct_regexp\"].match(row))\n",
+     "            direct_matched = bool(rule[\"attrs\"][\"direct_regexp\"].match(row))\n            if direct_matched:\n                rule[\"attrs\"][\"last_row\"] = row\n"),
+]
